@@ -312,6 +312,7 @@ func (d *badgerNodeDB) Finalize(roots []node.Root) error { // nolint: gocyclo
 	defer rootIt.Close()
 
 	var removeMetaKeys [][]byte
+	var removeRootKeys [][]byte
 	finalizedSeqNos := make(map[byte]uint16)
 	maybeLoneNodes := make(map[byte]map[string]struct{})
 	notLoneNodes := make(map[byte]map[string]struct{})
@@ -377,6 +378,10 @@ func (d *badgerNodeDB) Finalize(roots []node.Root) error { // nolint: gocyclo
 				nonEmptyVisitedRoots++
 			}
 		case false:
+			// The root node of a non-finalized root must be removed as well, otherwise the root
+			// would still be reported as existing while its nodes are gone (or replaced).
+			removeRootKeys = append(removeRootKeys, rootIt.Item().KeyCopy(nil))
+
 			// Remove any non-finalized roots. It is safe to remove these nodes as Badger's version
 			// control will make sure they are not removed if they are resurrected in any later
 			// version as long as we make sure that these nodes are not shared with any finalized
@@ -472,6 +477,13 @@ func (d *badgerNodeDB) Finalize(roots []node.Root) error { // nolint: gocyclo
 			if err := batch.Delete(finalizedNodeKeyFmt.Encode(rht, []byte(k))); err != nil {
 				return fmt.Errorf("mkvs/pathbadger: failed to delete lone node: %w", err)
 			}
+		}
+	}
+
+	// Remove root nodes of non-finalized roots. This can be retried.
+	for _, key := range removeRootKeys {
+		if err := batch.Delete(key); err != nil {
+			return fmt.Errorf("mkvs/pathbadger: failed to delete non-finalized root node: %w", err)
 		}
 	}
 
